@@ -32,8 +32,12 @@ def evalmp(roots, env, prec=60):
             elif o == "b": r = a[0]
             elif o == "nonfinite": r = mp.nan
             elif o == "neg": r = -memo[a[0].id]
-            elif o == "+": r = memo[a[0].id] + memo[a[1].id]
-            elif o == "*": r = memo[a[0].id] * memo[a[1].id]
+            elif o == "+":
+                r = memo[a[0].id]
+                for t in a[1:]: r = r + memo[t.id]
+            elif o == "*":
+                r = memo[a[0].id]
+                for t in a[1:]: r = r * memo[t.id]
             elif o == "/": r = memo[a[0].id] / memo[a[1].id]
             elif o == "ite": r = memo[a[1].id] if memo[a[0].id] else memo[a[2].id]
             elif o == "<": r = memo[a[0].id] < memo[a[1].id]
